@@ -513,6 +513,12 @@ func verifC02Check(opt Option, code uint16, want []byte, wordsAt ...int) {
 	verifC20Readers(back, false)
 	// C08 on typed values: the decoded option owns its memory — the buffer it was decoded from is
 	// overwritten with an arbitrary pattern and the option must still encode as before
+	// ... and shares no memory with a second decoding of the same bytes (decoders that hand out
+	// views of a common table or cache would tie unrelated messages together)
+	if back2, err2 := ParseOption(OptionCode(code), append([]byte(nil), b...)); err2 == nil {
+		verifAssert(!verifShares(back, back2), "two-decoded-options-share-no-memory")
+	}
+	verifAssert(!verifShares(back, b), "decoded-option-shares-no-memory-with-the-source-buffer")
 	enc0 := append([]byte(nil), back.ToBytes()...)
 	verifHavoc("scribble-in", b)
 	verifAssert(verifSame(back.ToBytes(), enc0), "overwriting-the-source-buffer-changes-nothing")
